@@ -80,7 +80,22 @@ func (v *FnVC) calleeName(c *ssa.CallCommon) (name string, fn *ssa.Function) {
 		if fa, ok := ld.X.(*ssa.FieldAddr); ok {
 			st := deref(fa.X.Type())
 			if s, ok := structOf(st); ok {
+				// a caller-specialised contract "<enclosing function>#<field>$call" (may mention the caller's names) wins
+				for f := v.Fn; f != nil; f = f.Parent() {
+					n := fmt.Sprintf("%s#%s$call", f.String(), s.Field(fa.Field).Name())
+					if v.W.ContractFor(n) != nil {
+						return n, nil
+					}
+				}
 				return fmt.Sprintf("(%s).%s$field", qualifiedTypeName(types.Unalias(st)), s.Field(fa.Field).Name()), nil
+			}
+		}
+	}
+	// call of a function fetched from a package-level map (a registry): contract "<enclosing function>#<map name>$call"
+	if lk, ok := c.Value.(*ssa.Lookup); ok {
+		if ld, ok := lk.X.(*ssa.UnOp); ok && ld.Op == token.MUL {
+			if g, ok := ld.X.(*ssa.Global); ok {
+				return v.funVarContractName(g.Name()), nil
 			}
 		}
 	}
